@@ -279,7 +279,7 @@ func (fr *frame) run() {
 		gp, ok := r.(goPanic)
 		if !ok {
 			switch u := r.(type) {
-			case abortPath:
+			case abortPath, solverTimeout:
 				panic(r)
 			case unsupported:
 				if !strings.Contains(u.what, "\n  in ") {
@@ -474,9 +474,9 @@ func (fr *frame) exec(ins ssa.Instruction) contKind {
 	case *ssa.Field:
 		fr.env[ins] = in.force(fr.get(ins.X)).(Struct)[ins.Field]
 	case *ssa.IndexAddr:
-		fr.env[ins] = in.indexAddr(fr.get(ins.X), fr.get(ins.Index).(*Term))
+		fr.env[ins] = in.indexAddr(fr.get(ins.X), fr.idxTerm(ins.Index))
 	case *ssa.Index:
-		fr.env[ins] = in.index(fr.get(ins.X), fr.get(ins.Index).(*Term))
+		fr.env[ins] = in.index(fr.get(ins.X), fr.idxTerm(ins.Index))
 	case *ssa.Lookup:
 		fr.env[ins] = in.lookup(ins, fr.get(ins.X), fr.get(ins.Index))
 	case *ssa.MapUpdate:
@@ -509,6 +509,19 @@ func (fr *frame) exec(ins ssa.Instruction) contKind {
 		in.fail("instruction %T: %v", ins, ins)
 	}
 	return kNext
+}
+
+// idxTerm widens an index of any integer type to 64 bits according to its signedness.
+func (fr *frame) idxTerm(v ssa.Value) *Term {
+	t := fr.get(v).(*Term)
+	if t.W > 0 && t.W < 64 {
+		_, sg, _ := intWidth(v.Type())
+		if sg {
+			return SignExt(64-t.W, t)
+		}
+		return ZeroExt(64-t.W, t)
+	}
+	return t
 }
 
 func concInt(v Value) int64 {
